@@ -176,6 +176,44 @@ def replace_funcname(source: str, name: str):
     return "\n".join(lines) + "\n"
 
 
+_DOCSTR_ESCAPES = {
+    "\\": "\\\\",
+    "\0": "\\x00",
+    "\r": "\\r",
+    "\x0b": "\\x0b",
+    "\x0c": "\\x0c",
+    "\x1c": "\\x1c",
+    "\x1d": "\\x1d",
+    "\x1e": "\\x1e",
+    "\x85": "\\x85",
+    "\u2028": "\\u2028",
+    "\u2029": "\\u2029"
+}
+
+
+def quote_docstring(docstr: str):
+    """Triple-quoted literal whose value is ``docstr``
+
+    Backslashes, quotes that would end the literal and
+    characters that do not survive in a source text as they are
+    (NUL, line boundaries other than the line feed) are escaped.
+    """
+    chars = []
+    quotes = 0      # Length of the current run of unescaped quotes
+    last = len(docstr) - 1
+    for i, c in enumerate(docstr):
+        if c == '"':
+            quotes += 1
+            if quotes == 3 or i == last:
+                c = '\\"'
+                quotes = 0
+        else:
+            quotes = 0
+            c = _DOCSTR_ESCAPES.get(c, c)
+        chars.append(c)
+    return '"""' + "".join(chars) + '"""'
+
+
 def replace_docstring(source: str, docstr: str, insert_indents=False):
     """Replace docstring"""
     # lines = source.splitlines()
@@ -191,7 +229,7 @@ def replace_docstring(source: str, docstr: str, insert_indents=False):
         raise RuntimeError("FunctionDef not found")
 
     first_stmt = node.body[0]
-    docstr = '"""' + docstr + '"""'
+    docstr = quote_docstring(docstr)
     prev_token = atok.tokens[first_stmt.first_token.index - 1]
 
     if prev_token.type == token.INDENT:     # compound statements
